@@ -70,7 +70,11 @@ pub fn select(profile: &str, seed: u64, count: usize, max_states: usize) -> (Vec
                     if i % 5 == 3 && rng.chance(1, 2) {
                         let t = rng.pick_str(&["\\w+", "[^x]", ".", "\\pL", "[^\\x00-\\x7F]+", "(?i)k", "\\S"]);
                         d.subpats.push((format!("uni{i}"), vmon::spec::Lit::s(t)));
-                        d.push(vmon::spec::Pat::regex(&format!("#(?&uni{i})"), 0).prio(70 + rng.below(9)));
+                        if rng.chance(1, 2) {
+                            d.push(vmon::spec::Pat::new(vmon::spec::PatKind::Regex, vmon::spec::Lit::b(format!("#(?&uni{i})+").as_bytes()), 0).prio(70 + rng.below(9)));
+                        } else {
+                            d.push(vmon::spec::Pat::regex(&format!("#(?&uni{i})"), 0).prio(70 + rng.below(9)));
+                        }
                         d.normalize();
                     }
                     d
